@@ -337,4 +337,206 @@ theorem isTextblockN_eq (S : Schema) (n : Node)
   | leaf t a m => rfl
   | elem t a m k => rfl
 
+/-! ## `NodeType.create_and_fill()` (no arguments)
+
+  Four models: the general `Schema.createAndFill fuel t attrs content marks : Built` of PM/CreateFill.lean
+  (all outcomes explicit), and three argument-less ones that only say "a node or not":
+  `createAndFill` (PM/FillOrder, for the Fitter), `Schema.createAndFill0` (PM/TypePlan, for
+  `clear_incompatible`), `FromDom.createAndFill` (PM/FromDom, for the parser; it keeps the exception). -/
+
+/-- planners' copy = Fitter's copy, for every fuel and type -/
+theorem createAndFill0_eq (S : Schema) : ∀ (fuel : Nat) (t : TypeId),
+    S.createAndFill0 fuel t = createAndFill S fuel t
+  | 0, _ => rfl
+  | fuel + 1, t => by
+    have ih : S.createAndFill0 fuel = createAndFill S fuel := funext (createAndFill0_eq S fuel)
+    rw [Schema.createAndFill0, createAndFill, ih]
+    simp only [fillBeforeTypes, Schema.mkNodeO]
+    rfl
+
+theorem mapM_option_forall' {α β : Type} (f : α → Option β) (P : β → Prop)
+    (hf : ∀ a b, f a = some b → P b) :
+    ∀ (l : List α) (r : List β), l.mapM f = some r → ∀ b ∈ r, P b
+  | [], r, h, b, hb => by
+    simp only [List.mapM_nil, pure, Option.some.injEq] at h
+    subst h; simp at hb
+  | a :: l, r, h, b, hb => by
+    rw [List.mapM_cons] at h
+    cases hfa : f a with
+    | none => simp [hfa] at h
+    | some x =>
+      cases hl : l.mapM f with
+      | none => simp [hfa, hl] at h
+      | some xs =>
+        simp only [hfa, hl, bind, Option.bind, pure, Option.some.injEq] at h
+        subst h
+        rcases List.mem_cons.mp hb with rfl | hm
+        · exact hf a _ hfa
+        · exact mapM_option_forall' f P hf l xs hl b hm
+
+theorem mapRes_toOption {α β : Type} (f : α → Res β) : ∀ (l : List α),
+    (FromDom.mapRes f l).toOption = l.mapM (fun a => (f a).toOption)
+  | [] => rfl
+  | a :: l => by
+    rw [FromDom.mapRes, List.mapM_cons, ← mapRes_toOption f l]
+    cases hf : f a with
+    | error e => rfl
+    | ok b => cases hl : FromDom.mapRes f l <;> rfl
+
+/-- parser's copy, forgetting which exception = Fitter's copy -/
+theorem FromDom.createAndFill_toOption (S : Schema) : ∀ (fuel : Nat) (t : TypeId),
+    (FromDom.createAndFill S fuel t).toOption = PM.createAndFill S fuel t
+  | 0, _ => rfl
+  | fuel + 1, t => by
+    have ih : (fun a => (FromDom.createAndFill S fuel a).toOption) = PM.createAndFill S fuel :=
+      funext (FromDom.createAndFill_toOption S fuel)
+    rw [FromDom.createAndFill, PM.createAndFill]
+    cases hc : computeAttrs (S.nodeType t).attrs [] with
+    | error e => rfl
+    | ok attrs =>
+      simp only [fillBeforeTypes]
+      cases hf : fillBefore (S.dfa t) S.generatable 0 [] true with
+      | none => rfl
+      | some tys =>
+        simp only
+        rw [← ih, ← mapRes_toOption (FromDom.createAndFill S fuel) tys]
+        cases hr : FromDom.mapRes (FromDom.createAndFill S fuel) tys <;> rfl
+
+/-- "a node or not" of an explicit outcome -/
+def Built.toOption : Built → Option Node
+  | .node n => some n
+  | _ => none
+
+theorem Built.toOption_eq_some {b : Built} {n : Node} : b.toOption = some n ↔ b = .node n := by
+  cases b <;> simp [Built.toOption]
+
+/-- the comprehension `[tp.create_and_fill() for tp in types]` against `mapM` of the option-valued copy -/
+theorem fillNodesWith_mapM (mk : TypeId → Built) (f : TypeId → Option Node) : ∀ (tys : List TypeId),
+    (∀ tp ∈ tys, f tp = (mk tp).toOption) →
+    match tys.mapM f with
+    | some kids => fillNodesWith mk tys = .ok (kids.map some)
+    | none => ∀ opts, fillNodesWith mk tys = .ok opts → opts.mapM id = none
+  | [], _ => by simp [fillNodesWith]
+  | tp :: rest, h => by
+    have ih := fillNodesWith_mapM mk f rest (fun x hx => h x (List.mem_cons_of_mem _ hx))
+    have htp := h tp (by simp)
+    rw [List.mapM_cons, fillNodesWith]
+    cases hmk : mk tp with
+    | node n =>
+      rw [hmk] at htp
+      simp only [htp, Built.toOption]
+      cases hr : rest.mapM f with
+      | some kids =>
+        rw [hr] at ih
+        simp [ih, Except.map]
+      | none =>
+        rw [hr] at ih
+        simp only [bind, Option.bind]
+        intro opts ho
+        rcases hn : fillNodesWith mk rest with e | opts'
+        · simp [hn, Except.map] at ho
+        · simp only [hn, Except.map, Except.ok.injEq] at ho
+          subst ho
+          simp [ih opts' hn]
+    | nothing =>
+      rw [hmk] at htp
+      simp only [htp, Built.toOption, bind, Option.bind]
+      intro opts ho
+      rcases hn : fillNodesWith mk rest with e | opts'
+      · simp [hn, Except.map] at ho
+      · simp only [hn, Except.map, Except.ok.injEq] at ho
+        subst ho
+        simp
+    | raises e => rw [hmk] at htp; simp [htp, Built.toOption, bind, Option.bind]
+    | textType => rw [hmk] at htp; simp [htp, Built.toOption, bind, Option.bind]
+    | outOfFuel => rw [hmk] at htp; simp [htp, Built.toOption, bind, Option.bind]
+
+theorem createAndFill_notText (S : Schema) (fuel : Nat) (t : TypeId) (n : Node)
+    (h : createAndFill S fuel t = some n) : n.isText = false := by
+  cases fuel with
+  | zero => simp [createAndFill] at h
+  | succ fuel =>
+    rw [createAndFill] at h
+    split at h
+    · simp at h
+    · split at h
+      · simp at h
+      · split at h
+        · simp at h
+        · simp only [Option.some.injEq] at h
+          subst h
+          unfold Schema.mkNodeO
+          split <;> rfl
+
+theorem fillBefore_nil_of_validEnd (d : Dfa) (gen : TypeId → Bool) (q : Nat)
+    (h : d.validEnd q = true) : fillBefore d gen q [] true = some [] := by
+  simp [fillBefore, fillSearch, Dfa.run, h]
+
+/-- **the argument-less copies = the general model called without arguments**, outcome by outcome
+    (a node exactly when the general model builds that node; `None`, an exception and running out of
+    fuel are all "no node").  `hleaf`: a leaf type's automaton accepts the empty content (its start
+    state is `ContentMatch.empty`, a valid end) — so that a leaf type gets no fillers; `ht`: the call
+    is not on the text type (there the general model says `textType`: the real object is not a value
+    of the model's `Node`; fillers are never the text type, `fillBefore_all_gen`). -/
+theorem createAndFill_eq_toOption (S : Schema)
+    (hleaf : ∀ t, (S.nodeType t).isLeaf = true → (S.dfa t).validEnd 0 = true) :
+    ∀ (fuel : Nat) (t : TypeId), (S.nodeType t).isText = false →
+      createAndFill S fuel t = (S.createAndFill fuel t [] [] []).toOption
+  | 0, _, _ => rfl
+  | fuel + 1, t, ht => by
+    rw [createAndFill, Schema.createAndFill]
+    cases hc : computeAttrs (S.nodeType t).attrs [] with
+    | error e => rfl
+    | ok a =>
+      have hfront : S.fillFront (fun tp => S.createAndFill fuel tp [] [] []) t [] = .ok [] := by
+        simp [Schema.fillFront, fsize]
+      have hrun : (S.dfa t).run 0 (S.types []) = some 0 := rfl
+      simp only [List.all_nil, Bool.not_true, Bool.false_eq_true, if_false, hfront, hrun, fillBeforeTypes]
+      unfold Schema.fillFragment
+      cases hf : fillBefore (S.dfa t) S.generatable 0 [] true with
+      | none => rfl
+      | some tys =>
+        simp only
+        have hgen := fillBefore_all_gen _ _ _ _ _ _ hf
+        have hall : ∀ tp ∈ tys, createAndFill S fuel tp = (S.createAndFill fuel tp [] [] []).toOption := by
+          intro tp htp
+          refine createAndFill_eq_toOption S hleaf fuel tp ?_
+          have := hgen tp htp
+          simp only [Schema.generatable, Bool.not_eq_eq_eq_not, Bool.not_true, Bool.or_eq_false_iff] at this
+          exact this.1
+        have key := fillNodesWith_mapM (fun tp => S.createAndFill fuel tp [] [] []) (createAndFill S fuel) tys hall
+        cases hm : tys.mapM (createAndFill S fuel) with
+        | none =>
+          rw [hm] at key
+          simp only
+          rcases hn : fillNodesWith (fun tp => S.createAndFill fuel tp [] [] []) tys with b | opts
+          · have := (fillNodesWith_error_ne _ tys b hn).2
+            simp only
+            cases b <;> simp_all [Built.toOption]
+          · simp [fragOfOpts, key opts hn, Built.toOption]
+        | some kids =>
+          rw [hm] at key
+          have hkids : ∀ k ∈ kids, k.isText = false :=
+            mapM_option_forall' _ _ (fun tp k hk => createAndFill_notText S fuel tp k hk) tys kids hm
+          have hfa : fromArray kids = kids := fromArray_not_text kids hkids
+          have happ : fappendSz [] kids = kids := by
+            unfold fappendSz
+            by_cases hz : fsize kids = 0
+            · have : kids = [] := (fsize_eq_zero_iff (fun c hc => by
+                have := size_pos_of_not_text c (hkids c hc); omega)).1 hz
+              simp [this]
+            · simp [hz, fsize]
+          have hmk : S.mkNode t a (setFrom []) kids = S.mkNodeO t a [] kids := by
+            have hs : setFrom [] = [] := by simp [setFrom]
+            rw [hs]
+            refine (mkNodeO_eq_mkNode S t a [] kids ?_).symm
+            intro hl
+            have := fillBefore_nil_of_validEnd (S.dfa t) S.generatable 0 (hleaf t hl)
+            rw [hf] at this
+            simp only [Option.some.injEq] at this
+            subst this
+            simpa using hm.symm
+          simp only [key, fragOfOpts, mapM_id_map_some, hfa, ht, Bool.false_eq_true, if_false, happ, hmk,
+            Built.toOption]
+
 end PM
